@@ -19,12 +19,31 @@ fn check_relations_assignment(context: &CheckerContext) -> GenericResult<()> {
         .zip(context.problem.plan.relations.as_ref().map_or([].iter(), |relations| relations.iter()))
         .try_for_each(|(idx, relation)| {
             let tour = get_tour_by_vehicle_id(&relation.vehicle_id, relation.shift_index, &context.solution);
+            // NOTE jobs of the relation can be unassigned, but they cannot be served in a tour of another vehicle shift
+            let check_other_tours = || {
+                let has_wrong_assignment = context
+                    .solution
+                    .tours
+                    .iter()
+                    .filter(|other| {
+                        other.vehicle_id != relation.vehicle_id
+                            || other.shift_index != relation.shift_index.unwrap_or(0)
+                    })
+                    .flat_map(get_activity_ids)
+                    .any(|id| !reserved_ids.contains(id.as_str()) && relation.jobs.contains(&id));
+
+                if has_wrong_assignment {
+                    Err(format!("relation {idx} has jobs assigned to another tour").into())
+                } else {
+                    Ok(())
+                }
+            };
             // NOTE tour can be absent for tour relation
             let tour = if let Ok(tour) = tour {
                 tour
             } else {
                 return match relation.type_field {
-                    RelationType::Any => Ok(()),
+                    RelationType::Any => check_other_tours(),
                     _ => tour.map(|_| ()),
                 };
             };
@@ -75,20 +94,7 @@ fn check_relations_assignment(context: &CheckerContext) -> GenericResult<()> {
                         Ok(())
                     }
                 }
-                RelationType::Any => {
-                    let has_wrong_assignment = context
-                        .solution
-                        .tours
-                        .iter()
-                        .filter(|other| tour.vehicle_id != other.vehicle_id)
-                        .any(|tour| get_activity_ids(tour).iter().any(|id| relation_ids.contains(id)));
-
-                    if has_wrong_assignment {
-                        Err(format!("relation {idx} has jobs assigned to another tour").into())
-                    } else {
-                        Ok(())
-                    }
-                }
+                RelationType::Any => check_other_tours(),
             }
         })?;
 
